@@ -30,6 +30,8 @@ def main():
     info = lean_audit.lean_info(prop)
     info["rule"] = getattr(mod, "RULE", "")
     common.ensure_driver() if not info["problems"] else None
+    from harness import corpus
+    corpus.run_corpus(ctx)
     mod.run(ctx)
     if info["problems"] and not ctx.violations:
         ctx.violation("proof-obligation", {"problems": info["problems"], "log": info["build_log"][-1500:],
